@@ -151,7 +151,9 @@ class Ctx:
             os.replace(tmp, path)
             self.scans.append({"features": list(features), "wall_s": round(time.time() - t0, 2)})
             self._gc_cache()
-        f = Facts(path)
+        f = _FACTS_MEMO.get(path)
+        if f is None:
+            f = _FACTS_MEMO[path] = Facts(path)      # one fact base (and so one set of per-function analyses) per process
         if f["crate"] != "elf" or len(f["fns"]) < 100:
             raise SystemExit("fact base implausible: crate=%r fns=%d" % (f["crate"], len(f["fns"])))
         self._facts[features] = f
@@ -188,7 +190,27 @@ def load_known_findings():
     return known, fixed
 
 
+_FACTS_MEMO = {}
+
+
 def main(argv):
+    # several properties in one process share the fact base and the per-function analyses:  runner C01,C05,C18 --repo ...
+    props = [a for a in argv if not a.startswith("-")][:1]
+    if props and ("," in props[0] or props[0].upper() == "ALL"):
+        names = ["C%02d" % i for i in range(1, 21)] if props[0].upper() == "ALL" else props[0].split(",")
+        rest = [a for a in argv if a != props[0]]
+        rc = 0
+        for n in names:
+            try:
+                rc = max(rc, main1([n] + rest) or 0)
+            except SystemExit as e:
+                print("%s ERROR %s" % (n, e))
+                rc = max(rc, 2)
+        return rc
+    return main1(argv)
+
+
+def main1(argv):
     import argparse
     ap = argparse.ArgumentParser()
     ap.add_argument("prop")
